@@ -47,7 +47,7 @@ PROPS = {
     },
     "C07": {
         "controls": ["BIT"],
-        "rules": [("SUP-3", sup.sup3), ("BIT-4", bit.bit4), ("POL-1", pol.pol1), ("VAR-1", flw2.var1), ("VAR-2", flw2.var2), ("VAR-3", r5.var3), ("TAB-9", r5.tab9), ("VAR-4", r5.var4), ("ENV-8", r5.env8)],
+        "rules": [("SUP-3", sup.sup3), ("BIT-4", bit.bit4), ("POL-1", pol.pol1), ("VAR-1", flw2.var1), ("VAR-2", flw2.var2), ("VAR-3", r5.var3), ("TAB-9", r5.tab9), ("VAR-4", r5.var4), ("ENV-8", r5.env8), ("VAR-5", r5.var5)],
         "explanation": "Decides the alpha half of C07 ('a feature, node, length or stress value copied by an alpha onto the element it was read from leaves every word as it was') "
                        "as a composition of extracted tables and proved identities: POL-1: the matcher captures `bit != 0` (false on an absent node) for α, its inverse for -α, and the "
                        "output applies set_feat(N, bit, α) resp. !α; BIT-4 (bit-level abstract interpretation, all segments): set_feat(N, bit, <value of that bit>) and "
